@@ -270,4 +270,4 @@ MUTANTS_BATCH7 = {
  'C34_unpadded_code_in_stack': ('fuel-vm','fuel-vm/src/interpreter/flow.rs', ".checked_add(code_size_padded)", ".checked_add(code_size)",1),
 }
 
-SUITE_SURVIVORS = ['C02_no_vec_limit','C03_msg_gas_not_zeroed','C10_single_leaf_extra_proof','C14_excl_no_keycheck','C15_predicate_owner_no_seed','C17_ed25519_nonstrict','C19_coin_asset_from_messages','C20_gas_mismatch','C21_exp_zero_base','C25_fetch_gt_ssp','C26_mcp_as_mcl','C28_variable_not_zeroed','C29_noop_free','C31_cache_not_cleared','C33_supd_maxlen_off_by_one','C36_blob_zerofill_eq']
+SUITE_SURVIVORS = ['C02_no_vec_limit','C03_msg_gas_not_zeroed','C10_single_leaf_extra_proof','C14_excl_no_keycheck','C15_predicate_owner_no_seed','C17_ed25519_nonstrict','C19_coin_asset_from_messages','C20_gas_mismatch','C21_exp_zero_base','C25_fetch_gt_ssp','C26_mcp_as_mcl','C28_variable_not_zeroed','C29_noop_free','C31_cache_not_cleared','C33_supd_maxlen_off_by_one','C36_blob_zerofill_eq','C24_cb_noowner','C24_srwq_noowner','C04_storage_slot_offset_past_end']
